@@ -923,6 +923,12 @@ class Fn:
             if is_num(lt) and is_num(rt) and REAL in (lt, rt):
                 self.oracles.add("rpow")        # general real power: an explicit parameter, like sqrt
                 return f"(rpow {par(self.co(l, lt, REAL))} {par(self.co(r, rt, REAL))})", REAL
+            if is_arr(lt) and is_num(lt[1]) and is_num(rt) and REAL in (lt[1], rt):
+                # Extension 4: `a ** s` elementwise on an array with a real scalar exponent (oracle `rpow`)
+                self.oracles.add("rpow")
+                u = self.fresh("u")
+                return (f"(PyRt.{lt[0].upper()}.map (fun {u} => rpow {par(self.co(u, lt[1], REAL))} "
+                        f"{par(self.co(r, rt, REAL))}) {par(l)})"), (lt[0], REAL)
             self.fail("`**` is supported with the literal exponent 2 / 2.0, or as the oracle `rpow` on reals", e)
         (l, lt), (r, rt) = self.ex_raw(e.left), self.ex_raw(e.right)
         if is_arr(lt) or is_arr(rt):
@@ -935,7 +941,12 @@ class Fn:
         u, v = self.fresh("u"), self.fresh("v")
         if is_arr(lt) and is_arr(rt):
             if lt[0] != rt[0]:
-                self.fail("elementwise arithmetic on arrays of different rank", e)
+                # Extension 4: `a2 op v1` / `v1 op a2` — numpy broadcasts the 1-D value along the rows
+                if lt[0] == "a2":
+                    body, et = self.scalar_binop(e.op, u, lt[1], v, rt[1], e)
+                    return f"(PyRt.A2.zipRow (fun {u} {v} => {strip_par(body)}) {par(l)} {par(r)})", A2(et)
+                body, et = self.scalar_binop(e.op, v, lt[1], u, rt[1], e)
+                return f"(PyRt.A2.zipRow (fun {u} {v} => {strip_par(body)}) {par(r)} {par(l)})", A2(et)
             body, et = self.scalar_binop(e.op, u, lt[1], v, rt[1], e)
             return f"(PyRt.{lt[0].upper()}.zipWith (fun {u} {v} => {strip_par(body)}) {par(l)} {par(r)})", (lt[0], et)
         if is_arr(lt):
@@ -953,6 +964,16 @@ class Fn:
             return ("false" if isinstance(e.ops[0], ast.Is) else "true"), BOOL
         operands = [e.left] + list(e.comparators)
         vals = [self.ex(x) for x in operands]
+        if len(e.ops) == 1 and is_arr(vals[0][1]) != is_arr(vals[1][1]) \
+                and all(is_scalar(t[1]) if is_arr(t) else is_scalar(t) for _, t in vals):
+            # Extension 4: `a == c`, `a >= c`, … of an array and a scalar: the elementwise boolean array
+            (l, lt), (r, rt) = vals
+            u = self.fresh("u")
+            if is_arr(lt):
+                body, arr, kind = self.compare1(e.ops[0], u, lt[1], r, rt, e), l, lt[0]
+            else:
+                body, arr, kind = self.compare1(e.ops[0], l, lt, u, rt[1], e), r, rt[0]
+            return f"(PyRt.{kind.upper()}.map (fun {u} => {strip_par(body)}) {par(arr)})", (kind, BOOL)
         parts = []
         for k, op in enumerate(e.ops):
             (l, lt), (r, rt) = vals[k], vals[k + 1]
@@ -1012,7 +1033,7 @@ class Fn:
 
     def subscript(self, e):
         v, sl = e.value, e.slice
-        if any(isinstance(n, ast.Slice) for n in ast.walk(sl)):
+        if isinstance(sl, ast.Slice) or (isinstance(sl, ast.Tuple) and any(isinstance(n, ast.Slice) for n in sl.elts)):
             return self.slice_value(e)
         # a[i][j]  ==  a[i, j]
         if isinstance(v, ast.Subscript) and not isinstance(v.slice, ast.Tuple):
@@ -1039,11 +1060,17 @@ class Fn:
             if isinstance(sl, ast.Tuple):
                 self.fail(f"`{dotted(v)}` is declared 1-D but indexed with {len(sl.elts)} indices", e)
             self.need_inh(bty[1])
+            if self.peek_type(sl) == A1(INT):
+                # Extension 4: `a[idx]` with an integer ARRAY `idx` (fancy indexing: a fresh 1-D array)
+                return f"(PyRt.A1.gather {par(bt)} {par(self.ex(sl)[0])})", bty
             return f"(PyRt.A1.get {par(bt)} {self.index(sl)})", bty[1]
         if bty[0] == "a2":
             if isinstance(sl, ast.Tuple) and len(sl.elts) == 2:
                 self.need_inh(bty[1])
                 return f"(PyRt.A2.get {par(bt)} {self.index(sl.elts[0])} {self.index(sl.elts[1])})", bty[1]
+            if not isinstance(sl, ast.Tuple) and self.peek_type(sl) == A1(INT):
+                # Extension 4: `a[idx]` with an integer ARRAY `idx`: the fresh 2-D array of the rows a[k], k in idx
+                return f"(PyRt.A2.gatherRows {par(bt)} {par(self.ex(sl)[0])})", bty
             # a[i] as a value: a read-only row (numpy: a view — refused if the array is written anywhere)
             root = v
             while isinstance(root, (ast.Subscript, ast.Attribute)):
@@ -1294,6 +1321,26 @@ class Fn:
                     self.need("LT")
                 return f"(PyRt.A1.argmin {par(t)})", INT
             self.fail(f"`{d}` is supported on 1-D numeric values only (got {show_type(ty)})", e)
+        if d in ("np.array", "numpy.array") and len(args) == 1 and not kws \
+                and isinstance(args[0], (ast.List, ast.Tuple)) and args[0].elts:
+            # Extension 4: `np.array([e0, e1, ..])` of scalars as a 1-D value
+            vals = [self.num(*self.ex(x), e) for x in args[0].elts]
+            t = None
+            for _, ty in vals:
+                if not is_num(ty):
+                    self.fail(f"`np.array([..])` of {show_type(ty)} (only numbers)", e)
+                t = join(t, ty, "np.array")
+            return "[" + ", ".join(strip_par(self.co(x, ty, t)) for x, ty in vals) + "]", A1(t)
+        if d == "np.sum" and len(args) == 1 and set(kws) == {"axis"} and self.const_index(kws["axis"]) == 1:
+            # Extension 4: `np.sum(a, axis=1)` of a 2-D array: the row sums (row counts of a boolean array)
+            t, ty = self.ex(args[0])
+            if ty == A2(BOOL):
+                return f"(PyRt.A2.countAxis1 {par(t)})", A1(INT)
+            if ty[0] != "a2" or not is_num(ty[1]):
+                self.fail(f"`np.sum(.., axis=1)` is supported on 2-D arrays only (got {show_type(ty)})", e)
+            if ty[1] == REAL:
+                self.need("Add", "OfNat0")
+            return f"(PyRt.A2.sumAxis1 {par(t)})", A1(ty[1])
         if d in ("np.sum", "np.max", "np.min", "np.amax", "np.amin"):
             only(1)
             t, ty = self.ex(args[0])
@@ -1450,6 +1497,19 @@ class Fn:
                     and names[1] not in self.mutated:
                 return "enum_rows", [(names[0], INT), (names[1], A1(ty[1]))], (t, ty)
             self.fail(f"`enumerate` over a value of type {show_type(ty)} (only range(..) and 1-D arrays)", st)
+        if isinstance(it, ast.Call) and dotted(it.func) == "zip" and len(it.args) == 2 and not it.keywords \
+                and isinstance(tg, ast.Tuple) and len(tg.elts) == 2 and all(isinstance(x, ast.Name) for x in tg.elts):
+            # Extension 4: `for x, y in zip(u, v)` over two 1-D values (stops at the shorter one)
+            (t0, ty0), (t1, ty1) = self.ex(it.args[0]), self.ex(it.args[1])
+            if ty0[0] == "a1" and ty1[0] == "a1":
+                for a_ in it.args:
+                    root = a_
+                    while isinstance(root, (ast.Subscript, ast.Attribute)):
+                        root = root.value
+                    if not isinstance(root, ast.Name) or root.id in self.assigned(st.body):
+                        self.fail("`zip` over an array expression that is modified in the loop", st)
+                return "zip", [(names[0], ty0[1]), (names[1], ty1[1])], (t0, t1)
+            self.fail(f"`zip` over values of type {show_type(ty0)} and {show_type(ty1)} (only two 1-D values)", st)
         if isinstance(it, ast.Call):
             self.unsupported(it, "loop iterator (only range, enumerate(range), a 1-D array, enumerate(1-D array))")
         t, ty = self.ex(it)
@@ -1693,17 +1753,48 @@ class Fn:
         elif aty[0] == "a1" and tail(sl) and not seq_rhs and self.peek_type(st.value)[0] == "a1":
             t, ty = self.ex(st.value)            # a[lo:] = <1-D value>   (tail-slice store)
             text = f"PyRt.A1.setTail {a} {self.index(sl.lower)} {par(self.co(t, ty, A1(elt), st))}"
+        elif aty[0] == "a1" and not isinstance(sl, (ast.Tuple, ast.Slice)) and self.peek_type(sl) == A1(INT):
+            t, ty = self.ex(st.value)            # a[idx] = <1-D value>   (Extension 4: fancy-index store)
+            if ty[0] != "a1":
+                self.unsupported(st, "store (`a[<index array>] = <not a 1-D value>`)")
+            if ty[1] == REAL and elt == INT:
+                self.fail(f"real values are stored into the integer array `{base.id}`", st)
+            text = f"PyRt.A1.scatter {a} {par(self.ex(sl)[0])} {par(self.co(t, ty, A1(elt), st))}"
+        elif aty[0] == "a1" and not isinstance(sl, (ast.Tuple, ast.Slice)) and self.peek_type(sl) == A1(BOOL):
+            t, ty = self.ex(st.value)            # a[mask] = c   (Extension 4: boolean-mask store of a scalar)
+            if not is_scalar(ty):
+                self.unsupported(st, "store (`a[<boolean array>] = <not a scalar>`)")
+            text = f"PyRt.A1.setWhere {a} {par(self.ex(sl)[0])} {value(st.value)}"
         elif aty[0] == "a1":
             if isinstance(sl, (ast.Tuple, ast.Slice)):
                 self.unsupported(st, "store (slice / 2 indices into a 1-D array)")
             text = f"PyRt.A1.set {a} {self.index(sl)} {value(st.value)}"
         elif isinstance(sl, ast.Tuple) and len(sl.elts) == 2 and not any(isinstance(x, ast.Slice) for x in sl.elts):
             text = f"PyRt.A2.set {a} {self.index(sl.elts[0])} {self.index(sl.elts[1])} {value(st.value)}"
+        elif aty[0] == "a2" and not isinstance(sl, (ast.Tuple, ast.Slice)) and not seq_rhs \
+                and self.peek_type(st.value)[0] == "a1":
+            t, ty = self.ex(st.value)            # b[i] = <1-D value>   (Extension 4: the same as b[i, :] = …)
+            if ty[1] == REAL and elt == INT:
+                self.fail(f"real values are stored into the integer array `{base.id}`", st)
+            text = f"PyRt.A2.setRow {a} {self.index(sl)} {par(self.co(t, ty, A1(elt), st))}"
         elif isinstance(sl, ast.Tuple) and len(sl.elts) == 2 and tail(sl.elts[1]) \
                 and not isinstance(sl.elts[0], ast.Slice) and not seq_rhs and self.peek_type(st.value)[0] == "a1":
             t, ty = self.ex(st.value)            # a[i, lo:] = <1-D value>   (tail-slice store into one row)
             text = (f"PyRt.A2.setRowTail {a} {self.index(sl.elts[0])} {self.index(sl.elts[1].lower)} "
                     f"{par(self.co(t, ty, A1(elt), st))}")
+        elif aty[0] == "a2" and isinstance(sl, ast.Tuple) and len(sl.elts) == 2 \
+                and all(isinstance(x, ast.Slice) for x in sl.elts) and not seq_rhs \
+                and is_scalar(self.peek_type(st.value)):
+            # a[y0:y1, x0:x1] = c   (Extension 4: block store of a scalar)
+            b0 = self.slice_bounds(sl.elts[0], f"(PyRt.A2.shape0 {a})", st) or ("0", f"(PyRt.A2.shape0 {a})")
+            b1 = self.slice_bounds(sl.elts[1], f"(PyRt.A2.shape1 {a})", st) or ("0", f"(PyRt.A2.shape1 {a})")
+            text = f"PyRt.A2.setBlock {a} {b0[0]} {b0[1]} {b1[0]} {b1[1]} {value(st.value)}"
+        elif aty[0] == "a2" and isinstance(sl, ast.Tuple) and len(sl.elts) == 2 and full(sl.elts[0]) \
+                and not isinstance(sl.elts[1], ast.Slice) and not seq_rhs and self.peek_type(st.value)[0] == "a1":
+            t, ty = self.ex(st.value)            # a[:, k] = <1-D value>   (Extension 4: column store)
+            if ty[1] == REAL and elt == INT:
+                self.fail(f"real values are stored into the integer array `{base.id}`", st)
+            text = f"PyRt.A2.setCol {a} {self.index(sl.elts[1])} {par(self.co(t, ty, A1(elt), st))}"
         elif isinstance(sl, ast.Tuple) and len(sl.elts) == 2 and isinstance(sl.elts[1], ast.Slice) \
                 and not isinstance(sl.elts[0], ast.Slice):
             # a[i, :] = (e0, e1)   a[i, c0:c1] = np.array([e0, ..])
@@ -1803,6 +1894,12 @@ class Fn:
             head_txt = f"PyRt.forEach {par(t)}"
             binder_var = lid(lv_names[0])
             inner = []
+        elif kind == "zip":
+            t0, t1 = parts
+            binder_var = self.fresh("p")
+            head_txt = f"PyRt.forEach (PyRt.zip {par(t0)} {par(t1)})"
+            inner = [(lid(lv_names[0]), lean_type(lvs[0][1]), f"{binder_var}.1"),
+                     (lid(lv_names[1]), lean_type(lvs[1][1]), f"{binder_var}.2")]
         elif kind in ("rows", "enum_rows"):
             t, ty = parts
             rv = lid(lv_names[-1])
@@ -2288,6 +2385,33 @@ def survey(repo, elab=False, out=sys.stdout, as_json=False):
             results.append([spec, "blocked", str(e).split(": ", 1)[-1]])
         except RecursionError:
             results.append([spec, "blocked", "recursion limit"])
+    # a function that is blocked under the GUESSED types may translate under the types DECLARED for it in a targets
+    # JSON (fancy-index tables, corners passed as rows, …): retry those inside their own module
+    declared = {}
+    for p in sorted(TARGET_DIR.glob("*.json")):
+        try:
+            cfg2 = json.loads(p.read_text())
+        except ValueError:
+            continue
+        if cfg2.get("translator"):
+            continue
+        for fspec in cfg2.get("functions", []):
+            declared.setdefault((fspec["file"], fspec["name"]), cfg2)
+    retried = {}
+    for r in results:
+        key = (r[0]["file"], r[0]["name"])
+        if r[1] == "blocked" and key in declared:
+            cfg2 = declared[key]
+            if cfg2["module"] not in retried:
+                try:
+                    m2 = Module(cfg2, repo)
+                    m2.generate()
+                    retried[cfg2["module"]] = m2
+                except (TranslationError, RecursionError):
+                    retried[cfg2["module"]] = None
+            m2 = retried[cfg2["module"]]
+            if m2 is not None:
+                r[1], r[2] = "translated", f"with the types declared in loop_targets/{cfg2['module']}.json"
     if elab and ok_defs:
         import subprocess
         import tempfile
